@@ -358,6 +358,11 @@ def run(ctx, chk):
                         func=hf.name)
             else:
                 chk.ok('list-tail', 'tail:%s' % hf.name, hf.loc, 'tail is the last node, terminated', func=hf.name)
+    for suf in ('A', 'W'):
+        hf, probs = RR.contract_flag_reconcile(ctx, suf)
+        chk.add('flag-reconcile', 'contract:%s' % (base_name(hf.name) if probs else hf.name), not probs, probs[0][1] if probs else hf.loc,
+                '%s: %s' % (hf.name, probs[0][0] if probs else 'clears the flag whenever a host is present (adds the empty segment for "/")'),
+                func=hf.name)
     roots = []
     for suf in ('A', 'W'):
         roots += ['uriAddBaseUriExMm' + suf, 'uriRemoveBaseUriMm' + suf, 'uriNormalizeSyntaxExMm' + suf, 'uriMakeOwnerMm' + suf]
